@@ -11,16 +11,18 @@
       freed exactly once.
   F4  constructors as allocation sequences: NULL ⇒ nothing stays allocated.
 
-  Partial (named `_partial`), gaps:
-    * `initRectsA_survives_partial`, `translateA_partial`: the FALSE side and broken-ness are proved;
-      TRUE ⇒ equality with `Region.initRects` / `Region.translate` is not (validate's scatter/merge
-      with the literal quick sort is only tied by the correspondence check), and validate's heap
-      discipline is not part of `history_heap_discipline` (init_rects / translate / from_image /
-      conversions are not history commands).
-    * the capacity-event list of the band sweep is tied to the C code by the correspondence only.
+  validate is modelled with the literal quick_sort_rects; `quick_sort_rects_sorts` proves that it
+  returns a sorted permutation, hence (canonical forms are unique, C06) validate, init_rects and
+  translate refine `Region.validateRects / initRects / translate` although the model there uses an
+  insertion sort.  validate (bail paths included), init_rects, translate, init_from_image and the
+  16<->32 conversions are commands of `history_heap_discipline`.
+
+  Remaining gap (no `_partial` theorem depends on it): the capacity-event list of the band sweep
+  and of the bitmap row scan is tied to the C code by the correspondence check only.
 -/
 import Pixman.Lemmas.RegionAllocMisc
 import Pixman.Lemmas.RegionAllocHistory
+import Pixman.Lemmas.RegionAllocValidate
 namespace Pixman.Props.C15
 open Pixman.Region Pixman.Model.RegionAlloc Pixman.Spec.AllocFail
 
@@ -115,22 +117,55 @@ theorem unionRectA_survives {c : Cfg} {s : Sched} {same : Bool} {d a : RegionA} 
       ⟨fun h1 => hs (by cases same <;> simp_all), fun h2 => by cases same <;> simp at h2, fun h3 => by cases h3⟩
     exact unionA_survives ok na (by intro id sz; simp)
 
-/-- init_rects: FALSE ⇒ broken.  (TRUE ⇒ `Region.initRects` is not proved: gap, see header) -/
-theorem initRectsA_survives_partial {c : Cfg} {s : Sched} {boxes : List Box} {h : Heap}
-    (hf : (initRectsA c s boxes h).1 = false) : Broken (initRectsA c s boxes h).2.1 := by
-  rw [initRectsA_false hf]; exact broken_brkA
+/-- quick_sort_rects (modelled literally: middle pivot, Hoare partition, recursion right / loop left)
+    returns a permutation of its input sorted by (y1, x1) -/
+theorem quick_sort_rects_sorts (l : List Box) :
+    (quickSortRects l).Perm l ∧ (quickSortRects l).Pairwise KeyLe := quickSortRects_spec l
 
-theorem validateA_false_broken {c : Cfg} {s : Sched} {id size : Nat} {l : List Box} {h : Heap}
-    (hf : (validateA c s id size l h).1 = false) : Broken (validateA c s id size l h).2.1 := by
-  rw [validateA_false hf]; exact broken_brkA
+/-- validate on a malloc'ed block of ≥ 1 non-degenerate rectangles: FALSE ⇒ broken;
+    TRUE ⇒ exactly `Region.validateRects` (C05: canonical, the union of the rectangles) -/
+theorem validateA_survives {c : Cfg} {s : Sched} {id size : Nat} {l : List Box} {h : Heap}
+    (hg : ∀ b ∈ l, goodRect b = true) (hne : l ≠ []) :
+    Survives (validateRects l, true) (validateA c s id size l h) :=
+  ⟨fun hf => by rw [validateA_false hf]; exact broken_brkA,
+   fun ht => by rw [validateA_erase c s id size l h ht, validateCore_quickSort l hg hne]⟩
 
-/-- init_from_image (void): broken, or the failure-free rectangles and extents, or empty -/
+/-- pixman_region_init_rects, any list of boxes (overlapping, degenerate, any order) -/
+theorem initRectsA_survives {c : Cfg} {s : Sched} {boxes : List Box} {h : Heap} :
+    Survives (initRects c boxes) (initRectsA c s boxes h) :=
+  ⟨fun hf => by rw [initRectsA_false hf]; exact broken_brkA, fun ht => initRectsA_true c s boxes h ht⟩
+
+/-- pixman_region_translate (void) on a region with non-degenerate rectangles: the result is the
+    broken region (validate's allocation refused) or exactly `Region.translate` -/
+theorem translateA_refines_or_broken {c : Cfg} {s : Sched} {r : RegionA} {dx dy : Int} {h : Heap}
+    (hg : ∀ b ∈ r.rects, goodRect b = true) :
+    Broken (translateA c s r dx dy h).1 ∨ (translateA c s r dx dy h).1.erase = translate c r.erase dx dy := by
+  rcases translateA_refines c s r dx dy h hg with hb | hr
+  · left; rw [hb]; exact broken_brkA
+  · right; exact hr
+
+/-- the 16<->32 conversions of pixman-utils.c: TRUE ⇒ the failure-free conversion; FALSE ⇒ the
+    destination is broken or (temporary box array refused) exactly as it was -/
+theorem conv16_outcome (s : Sched) (dst src : RegionA) (h : Heap) :
+    ((region16From32A s dst src h).1 = true →
+      ((region16From32A s dst src h).2.1.erase, true) = region16FromRegion32 src.erase) ∧
+    ((region16From32A s dst src h).1 = false →
+      Broken (region16From32A s dst src h).2.1 ∨ (region16From32A s dst src h).2.1 = dst) := by
+  have := region16From32A_outcome s dst src h
+  exact ⟨this.1, fun hf => (this.2 hf).imp (fun e => by rw [e]; exact broken_brkA) id⟩
+
+theorem conv32_outcome (s : Sched) (dst src : RegionA) (h : Heap) :
+    ((region32From16A s dst src h).1 = true →
+      ((region32From16A s dst src h).2.1.erase, true) = region32FromRegion16 src.erase) ∧
+    ((region32From16A s dst src h).1 = false →
+      Broken (region32From16A s dst src h).2.1 ∨ (region32From16A s dst src h).2.1 = dst) := by
+  have := region32From16A_outcome s dst src h
+  exact ⟨this.1, fun hf => (this.2 hf).imp (fun e => by rw [e]; exact broken_brkA) id⟩
+
+/-- init_from_image (void): the broken region, or exactly `Region.initFromImage` -/
 theorem initFromImageA_refines_or_broken (c : Cfg) (s : Sched) (w : Nat) (rows : List (List Bool)) (h : Heap) :
-    Broken (initFromImageA c s w rows h).1 ∨
-    ((initFromImageA c s w rows h).1.erase.extents = (initFromImage w rows).extents ∧
-     (initFromImageA c s w rows h).1.erase.rects = (initFromImage w rows).rects ∨
-     (initFromImageA c s w rows h).1.erase.nil = true) := by
-  rcases initFromImageA_cases c s w rows h with hb | hr
+    Broken (initFromImageA c s w rows h).1 ∨ (initFromImageA c s w rows h).1.erase = initFromImage w rows := by
+  rcases initFromImageA_exact c s w rows h with hb | hr
   · left; rw [hb]; exact broken_brkA
   · right; exact hr
 
@@ -194,7 +229,7 @@ theorem copyA_broken_source_propagates {c : Cfg} {s : Sched} {dst src : RegionA}
   copyA_broken_source hb
 
 /-- 663c485: translate keeps a broken region broken and touches no block -/
-theorem translateA_partial {c : Cfg} {s : Sched} {r : RegionA} {dx dy : Int} {h : Heap}
+theorem translate_keeps_broken {c : Cfg} {s : Sched} {r : RegionA} {dx dy : Int} {h : Heap}
     (hb : r.isBroken = true) : (translateA c s r dx dy h).1.data = .broken ∧ (translateA c s r dx dy h).2 = h :=
   translateA_keeps_broken hb
 
@@ -243,8 +278,36 @@ theorem inverseA_own {c : Cfg} {s : Sched} {same : Bool} {nr r1 : RegionA} {b : 
 theorem finiA_own {r : RegionA} {h : Heap} {rest : List Nat} (o : Own h (r.ids ++ rest)) :
     Own (finiA r h) rest := o.finiA
 
+theorem validate_own {c : Cfg} {s : Sched} {id size : Nat} {l : List Box} {h : Heap} {rest : List Nat}
+    (hne : l ≠ []) (o : Own h (id :: rest)) :
+    Own (validateA c s id size l h).2.2 ((validateA c s id size l h).2.1.ids ++ rest) :=
+  validateA_own c s id size l h hne o
+
+theorem initRects_own {c : Cfg} {s : Sched} {boxes : List Box} {h : Heap} {rest : List Nat} (o : Own h rest) :
+    Own (initRectsA c s boxes h).2.2 ((initRectsA c s boxes h).2.1.ids ++ rest) := initRectsA_own c s boxes h o
+
+theorem translate_own {c : Cfg} {s : Sched} {r : RegionA} {dx dy : Int} {h : Heap} {rest : List Nat}
+    (o : Own h (r.ids ++ rest)) :
+    Own (translateA c s r dx dy h).2 ((translateA c s r dx dy h).1.ids ++ rest) := translateA_own c s r dx dy h o
+
+theorem initFromImage_own {c : Cfg} {s : Sched} {w : Nat} {rows : List (List Bool)} {h : Heap} {rest : List Nat}
+    (o : Own h rest) :
+    Own (initFromImageA c s w rows h).2 ((initFromImageA c s w rows h).1.ids ++ rest) :=
+  initFromImageA_own c s w rows h o
+
+theorem conv16_own {s : Sched} {dst src : RegionA} {h : Heap} {rest : List Nat}
+    (o : Own h (dst.ids ++ rest)) :
+    Own (region16From32A s dst src h).2.2 ((region16From32A s dst src h).2.1.ids ++ rest) :=
+  region16From32A_own s dst src h o
+
+theorem conv32_own {s : Sched} {dst src : RegionA} {h : Heap} {rest : List Nat}
+    (o : Own h (dst.ids ++ rest)) :
+    Own (region32From16A s dst src h).2.2 ((region32From16A s dst src h).2.1.ids ++ rest) :=
+  region32From16A_own s dst src h o
+
 /-- F3 for operation histories: any sequence of union / intersect / subtract / inverse /
-    union_rect / intersect_rect / copy / fini commands on `n` registers (operands are register
+    union_rect / intersect_rect / copy / fini / init_rects (validate) / translate / init_from_image /
+    16<->32 conversion commands on `n` registers (operands are register
     indices, so every aliasing pattern occurs), under any failure schedule: at every point no block
     has been freed twice and the live blocks are exactly those held by the registers; after fini of
     every register every block ever allocated has been freed exactly once. -/
@@ -261,6 +324,10 @@ theorem history_heap_discipline (c : Cfg) (s : Sched) (n : Nat) (cmds : List Cmd
 -- non-vacuity: a history in which a refused allocation breaks register 0, then everything is finished
 example : (runCmds c32 (Sched.single 0) [.unionRect 0 0 0 0 4 4, .unionRect 1 0 9 9 2 2, .copy 2 1, .fini 1]
     (List.replicate 3 initA) Heap.empty).1.length = 3 := by decide
+
+-- validate's bail path inside a history: the 2nd request (a region of step 2) is refused
+example : (initRectsA c32 (Sched.single 1) [⟨0, 0, 9, 9⟩, ⟨3, 3, 12, 12⟩, ⟨20, 0, 22, 2⟩] Heap.empty).1 = false := by decide
+example : (initRectsA c32 Sched.ok [⟨9, 0, 11, 2⟩, ⟨0, 0, 2, 2⟩, ⟨5, 0, 7, 2⟩] Heap.empty).1 = true := by decide
 
 /-! ## F4 -/
 
